@@ -85,6 +85,21 @@ func runGen(prop, tier string, sc *core.Scratch, ev *core.Evidence, rep *core.Re
 	if len(cases) == 0 {
 		return 2, core.Infra("no corpus for %s", prop)
 	}
+	violations, accepted, err := EvaluateCases(prop, prop, cases, sc, ev, rep)
+	if err != nil {
+		return 2, err
+	}
+	if accepted == 0 {
+		return 2, core.Infra("moq accepted none of the %d cases: the check would be vacuous", len(cases))
+	}
+	if violations > 0 {
+		return 1, nil
+	}
+	return 0, nil
+}
+
+// EvaluateCases runs, predicts, judges and reports a list of cases for one property.
+func EvaluateCases(prop, tag string, cases []*Case, sc *core.Scratch, ev *core.Evidence, rep *core.Reporter) (int, int, error) {
 	// only the predicates of this property are judged
 	for _, c := range cases {
 		keep := []string{}
@@ -111,20 +126,20 @@ func runGen(prop, tier string, sc *core.Scratch, ev *core.Evidence, rep *core.Re
 		}
 	}
 	cases = live
-	if _, err := RunCases(sc, ev, prop, cases); err != nil {
-		return 2, err
+	if _, err := RunCases(sc, ev, tag, cases); err != nil {
+		return 0, 0, err
 	}
-	preds, err := Predict(sc, ev, prop, cases)
+	preds, err := Predict(sc, ev, tag, cases)
 	if err != nil {
-		return 2, err
+		return 0, 0, err
 	}
-	fails, err := JudgeCases(sc, ev, prop, cases)
+	fails, err := JudgeCases(sc, ev, tag, cases)
 	if err != nil {
-		return 2, err
+		return 0, 0, err
 	}
 	kf, err := core.LoadFindings()
 	if err != nil {
-		return 2, err
+		return 0, 0, err
 	}
 	violations := 0
 	accepted, rejected, crashed := 0, 0, 0
@@ -157,6 +172,10 @@ func runGen(prop, tier string, sc *core.Scratch, ev *core.Evidence, rep *core.Re
 				rep.DriftNote(fmt.Sprintf("Scope model predicts parameter names %v, moq chose otherwise (%s)", p.Names, c.Origin))
 			}
 		}
+		if p != nil && (p.Diverge || p.Crash) && c.Obs.Exit == "ok" {
+			drift++
+			rep.DriftNote(fmt.Sprintf("the model predicts a crash (diverge=%v nil-deref=%v) but moq produced output (%s)", p.Diverge, p.Crash, c.Origin))
+		}
 		if len(ev.Coverage["samples"].([]any)) < 4 && c.ID%37 == 1 {
 			ev.Sample(map[string]any{"origin": c.Origin, "cfg": c.Cfg, "exit": c.Obs.Exit, "imports": c.Obs.Imports, "typeErrors": c.Obs.TypeErrors})
 		}
@@ -183,7 +202,7 @@ func runGen(prop, tier string, sc *core.Scratch, ev *core.Evidence, rep *core.Re
 			if len(c.Obs.TypeErrors) > 0 {
 				te = c.Obs.TypeErrors[0]
 			}
-			fmt.Fprintf(os.Stderr, "DEBUG fail %s %s dest=%s stub=%v skip=%v resets=%v args=%v :: %s\n", prop, c.Origin, c.Cfg.Dest, c.Cfg.Stub, c.Cfg.SkipEnsure, c.Cfg.WithResets, c.Cfg.Args, firstLines(te, 1))
+			fmt.Fprintf(os.Stderr, "DEBUG fail %s %s dest=%s stub=%v skip=%v resets=%v args=%v :: %s %s\n", prop, c.Origin, c.Cfg.Dest, c.Cfg.Stub, c.Cfg.SkipEnsure, c.Cfg.WithResets, c.Cfg.Args, firstLines(te, 1), firstLines(c.Obs.Err, 1))
 		}
 		rep.Violation(prop, map[string]any{"kind": "generator case fails " + prop, "failed_predicates": fl, "case": describe(c),
 			"how": "real moq output projected with go/types, judged by spec/GenTrace.tla"})
@@ -194,19 +213,15 @@ func runGen(prop, tier string, sc *core.Scratch, ev *core.Evidence, rep *core.Re
 			rep.Known(f, fmt.Sprintf("%s (%d cases of this shape in the corpus)", f.What, n))
 		}
 	}
-	ev.Set("accepted_by_moq", accepted)
-	ev.Set("rejected_with_error", rejected)
-	ev.Set("crashed", crashed)
-	ev.Set("known_finding_cases", knownHit)
-	ev.Set("spec_drift_cases", drift)
-	ev.Set("rule", "a case is one (source package, interface arguments, configuration) triple generated with the production entry points; distinct by corpus element and configuration")
-	if accepted == 0 {
-		return 2, core.Infra("moq accepted none of the %d cases: the check would be vacuous", len(cases))
+	ev.Set("accepted_by_moq_"+tag, accepted)
+	ev.Set("rejected_with_error_"+tag, rejected)
+	ev.Set("crashed_"+tag, crashed)
+	ev.Set("known_finding_cases_"+tag, knownHit)
+	ev.Set("spec_drift_cases_"+tag, drift)
+	if _, ok := ev.Coverage["rule"]; !ok {
+		ev.Set("rule", "a case is one (source package, interface arguments, configuration) triple generated with the production entry points; distinct by corpus element and configuration")
 	}
-	if violations > 0 {
-		return 1, nil
-	}
-	return 0, nil
+	return violations, accepted, nil
 }
 
 func quals(o *Obs) []string {
